@@ -21,17 +21,27 @@ import (
 //   "reader" all inputs joined by newlines, through Interp.EvalReader as one stream
 // Program.Entry is the name the compiled function gets on the oracle side.
 
-var funcHead = regexp.MustCompile(`^func ([A-Za-z_][A-Za-z0-9_]*)(\([^{]*?) \{`)
+var funcName = regexp.MustCompile(`^func ([A-Za-z_][A-Za-z0-9_]*)\(`)
 
-// oracleItem renders one history input as function-body statements.
+// oracleItem renders one history input as function-body statements. A function
+// declaration `func NAME<signature> {` + body (the first line ends with " {") becomes a
+// function-typed variable, declared first and assigned second: the body may call itself.
 func oracleItem(item string) string {
-	if m := funcHead.FindStringSubmatch(item); m != nil {
-		name, sig := m[1], m[2]
-		rest := item[len(m[0]):]
-		// declared first, assigned second: the body may call itself
-		return fmt.Sprintf("var %s func%s\n%s = func%s {%s", name, sig, name, sig, rest)
+	m := funcName.FindStringSubmatch(item)
+	if m == nil {
+		return item
 	}
-	return item
+	first := item
+	if i := strings.IndexByte(item, '\n'); i >= 0 {
+		first = item[:i]
+	}
+	if !strings.HasSuffix(first, " {") {
+		return item
+	}
+	name := m[1]
+	sig := first[len("func "+name) : len(first)-2]
+	rest := item[len(first):]
+	return fmt.Sprintf("var %s func%s\n%s = func%s {%s", name, sig, name, sig, rest)
 }
 
 // oracleOf renders the history as the body of one compiled function, in order.
